@@ -82,6 +82,70 @@ def slice(ctx: fw.Ctx) -> fw.Outcome:
             x3 = impl.run_chart(text2, None)
             reqs.append((text2, None))
             meta.append(("isolate-full", text2, None, x3, full))
+    # the caller's selection object is an input, not scratch space: the same list handed to two parses selects the same tracks
+    # twice and is left as it was; a tuple or a generator-free iterable of the same pairs selects the same tracks
+    from chartparse.chart import Chart
+    import io
+    for _ in range(ctx.n(40, 2000)):
+        src = gen.rand_src(rng, prof)
+        if not src.tracks:
+            continue
+        R = gen.render(src, rng, prof, garbage=False)
+        present = sorted({(t.inst, t.diff) for t in src.tracks})
+        sel = rng.sample(present, rng.randint(1, len(present))) + ([(rng.randrange(10), rng.randrange(4))] if rng.random() < 0.5 else [])
+        w = impl.want_arg(sel)
+        before = list(w)
+        dumps = []
+        for k in range(3):
+            try:
+                c = Chart.from_file(io.StringIO(R.text, newline=""), want_tracks=(w if k < 2 else tuple(before)))
+                dumps.append(impl.dump_chart(c, []))
+            except Exception as ex:  # noqa: BLE001
+                dumps.append(impl.err_name(ex))
+        rp = {"op": "reuse", "text": R.text, "want": sel}
+        out.case(fw.h(["reuse", R.text, sel]), True, None, tags=["reuse-selection"])
+        if list(w) != before:
+            out.violation("reuse-" + fw.h(rp), f"parsing with want_tracks={sel} changed the caller's list to {len(w)} entries", rp,
+                          observed=len(w), promised=len(before))
+        elif len(set(dumps)) != 1:
+            p_, q_ = fw.first_diff(dumps[0], dumps[1] if dumps[1] != dumps[0] else dumps[2])
+            out.violation("reuse-" + fw.h(rp), f"the same selection {sel} (same list twice, then as a tuple) gave different charts: {p_[:80]!r} vs {q_[:80]!r}",
+                          rp, observed=q_[:200], promised=p_[:200])
+    # sections with line-for-line identical bodies (also empty ones) are still different tracks: each carries its own header's
+    # instrument and difficulty, restricted or not
+    for _ in range(ctx.n(40, 2000)):
+        src = gen.rand_src(rng, prof)
+        if not src.tracks:
+            src.tracks.append(gen.TrackSrc(rng.randrange(10), rng.randrange(4), [], [], []))
+        R = gen.render(src, rng, prof, garbage=False)
+        donor = rng.choice(src.tracks)
+        dbody = next(b for t, b in R.sections if t == gen.header_tag(donor.inst, donor.diff))
+        used = {(t.inst, t.diff) for t in src.tracks}
+        free = [(i, d) for i in range(10) for d in range(4) if (i, d) not in used]
+        clones = rng.sample(free, rng.randint(1, 3))
+        if rng.random() < 0.5:
+            clones[0] = (donor.inst, clones[0][1]) if (donor.inst, clones[0][1]) in free else clones[0]  # same instrument, other difficulty
+        lines = []
+        secs = list(R.sections) + [(gen.header_tag(i, d), dbody) for i, d in clones]
+        if rng.random() < 0.5:
+            rng.shuffle(secs)
+        for t, b in secs:
+            lines += [f"[{t}]", "{"] + b + ["}"]
+        text = "\n".join(lines) + "\n"
+        full = impl.run_chart(text, None)
+        reqs.append((text, None))
+        meta.append(("clones-full", text, None, full, None))
+        rp = {"op": "clones", "text": text, "want": None, "keys": sorted(used | set(clones))}
+        if not full.startswith("E "):
+            d = gen.parse_dump(full)
+            bad = [(k, v["label"]) for k, v in d["tracks"].items() if tuple(v["label"]) != tuple(k)]
+            if bad or sorted(d["tracks"]) != sorted(used | set(clones)):
+                out.violation("clones-" + fw.h(rp), f"sections with identical bodies: tracks {sorted(d['tracks'])} (expected {sorted(used | set(clones))}), "
+                              f"tracks whose own instrument/difficulty differ from their header: {bad[:3]}", rp, observed=str(bad)[:200], promised="each track labelled by its own header")
+            one = rng.choice(clones)
+            x = impl.run_chart(text, [one])
+            reqs.append((text, [one]))
+            meta.append(("sel", text, [list(one)], x, full))
     # tracks must be independent: an out-of-order section raises ValueError whatever other sections contain, selected alone or not
     for _ in range(ctx.n(10, 500)):
         t2 = rng.randint(50, 900)
@@ -136,7 +200,25 @@ def slice(ctx: fw.Ctx) -> fw.Outcome:
 
 
 def replay(ctx, data):
+    if data["op"] == "reuse":
+        from chartparse.chart import Chart
+        import io
+        w = impl.want_arg(data["want"])
+        before = list(w)
+        dumps = []
+        for k in range(3):
+            try:
+                dumps.append(impl.dump_chart(Chart.from_file(io.StringIO(data["text"], newline=""), want_tracks=(w if k < 2 else tuple(before))), []))
+            except Exception as ex:  # noqa: BLE001
+                dumps.append(impl.err_name(ex))
+        return list(w) != before or len(set(dumps)) != 1, f"list {len(before)} -> {len(w)}; distinct results {len(set(dumps))}"
     x = impl.run_chart(data["text"], data.get("want"))
+    if data["op"] == "clones":
+        if x.startswith("E "):
+            return False, x
+        d = gen.parse_dump(x)
+        bad = [(k, v["label"]) for k, v in d["tracks"].items() if tuple(v["label"]) != tuple(k)]
+        return bool(bad) or sorted(d["tracks"]) != sorted(tuple(k) for k in data["keys"]), str(bad)[:200]
     if data["op"] == "sel":
         full = impl.run_chart(data["text"], None)
         if full.startswith("E "):
